@@ -1200,6 +1200,7 @@ CURATED = [
     # peer Logout (counted and journaled since the repair of D22), then restart / reconnect; Logout with a gap
     (2, LOGON_A + [[1, 0, 2, 0, 1, 0], [1, 6, 3, 0, 0, 0]]),
     (2, LOGON_A + [[1, 0, 2, 0, 1, 0], [1, 6, 5, 0, 0, 0]]),
+    (2, LOGON_A + [[1, 4, 2, 0, 2, 1], [1, 6, 2, 0, 0, 0]]),       # the Logout's journal write fails: the session still ends
     (1, LOGON_I + [[2, 0, 0, 0, 1, 0], [1, 6, 2, 0, 0, 0], [0], [2, 5, 0, 0, 0, 0], [1, 5, 3, 0, 0, 0]]),
     # own Logout, restart inside the history, too-low frame, refused sends
     (2, LOGON_A + [[2, 0, 0, 0, 1, 0], [3, 1], [4], [0], [1, 5, 2, 0, 0, 0], [2, 0, 0, 0, 2, 0]]),
